@@ -328,6 +328,7 @@ class Config:
         self.elapsed = "1"
         self.timed = False
         self.elapsed_options: list[str] = []
+        self.real_layer = False  # also ask the real states.setup/pool layer whether a test can fetch its states
         self.__dict__.update(kw)
 
 
@@ -349,6 +350,8 @@ class Run:
         self.crash: Any = None
         self.wiped: list[tuple[str, str]] = []
         self.late: dict[str, Any] = {}
+        self.real_agree = 0
+        self.real_disagree = 0
 
     # -- store model -----------------------------------------------------------
     def bit(self, where: str, key: tuple[str, str]) -> bool:
@@ -427,7 +430,18 @@ class Run:
             need["sources"] = srcs
             if not self.present_for(worker.id, (need["object"], need["state"]), srcs):
                 missing.append(need)
-        ev = {"missing": missing,
+        real_missing = None
+        if self.config.real_layer:
+            from . import realdoor
+
+            ok, why = realdoor.could_fetch(self, node, worker)
+            real_missing = None if ok else why
+            self.real_agree += int(ok == (not missing))
+            self.real_disagree += int(ok != (not missing))
+            if not ok and not missing:
+                # the real layer cannot fetch although the model found every state: keep the outcome realistic
+                missing = [dict(n, real_layer=why) for n in needs if n["state"] not in ROOT_STATES and not n["permanent"]][:1]
+        ev = {"missing": missing, "real_missing": real_missing,
             "kind": "start", "idx": len(self.trace), "exec": self.n_exec, "worker": worker.id, "swarm": worker.swarm_id,
             "name": node.params["name"], "shortname": node.params["shortname"], "uid": uid, "prefix": node.prefix,
             "bridged": bridged_name(node), "node": node, "params": dict(node.params),
